@@ -479,6 +479,11 @@ func genPlace(t *rapid.T) PCase {
 			a.CPU = rapid.SampledFrom([]float64{1, 2}).Draw(t, "cpu")
 			a.Mem = rapid.SampledFrom([]float64{512, 1024}).Draw(t, "mem")
 			a.Ports = [][2]uint64{{9000, 9023}, {30000, 30007}}
+			if rapid.IntRange(0, 2).Draw(t, "fewPorts") == 0 {
+				// so few ports that the tasks placed here use every one of them
+				nd, nc := uint64(rapid.IntRange(0, 3).Draw(t, "dataPorts")), uint64(rapid.IntRange(0, 2).Draw(t, "controlPorts"))
+				a.Ports = [][2]uint64{{9000, 9000 + nd}, {30000, 30000 + nc}}
+			}
 		} else {
 			a.CPU = rapid.SampledFrom([]float64{8, 16}).Draw(t, "cpu")
 			a.Mem = rapid.SampledFrom([]float64{8192, 16384}).Draw(t, "mem")
@@ -562,6 +567,11 @@ func TestPlacementFixed(t *testing.T) {
 	vh.Fixed(t, prop, "no-control-port-in-offer", PCase{Agents: []PAgent{{Rack: "r1", Kind: "flp", CPU: 8, Mem: 8192, Ports: [][2]uint64{{9000, 9050}}}}, Tasks: []PTask{mk(1, 128, 0)}}, vh.Confirmed(runPlace))
 	vh.Fixed(t, prop, "no-data-port-in-offer", PCase{Agents: []PAgent{{Rack: "r1", Kind: "flp", CPU: 8, Mem: 8192, Ports: [][2]uint64{{30000, 30050}}}}, Tasks: []PTask{mk(1, 128, 0)}}, vh.Confirmed(runPlace))
 	vh.Fixed(t, prop, "static-port-equals-first-dynamic-port", PCase{Agents: []PAgent{big}, Tasks: []PTask{{CPU: 1, Mem: 128, Mode: "direct", Critical: true, MachineIdx: 0, Static: [][2]uint64{{9000, 9001}}, BindTCP: 2}}}, vh.Confirmed(runPlace))
+	// the first task takes the very last ports of the offer (one data port for its channel, one control port); a second task wants the same
+	exact := PAgent{Rack: "r1", Kind: "flp", CPU: 8, Mem: 8192, Ports: [][2]uint64{{9000, 9000}, {30000, 30000}}}
+	vh.Fixed(t, prop, "last-ports-of-the-offer-taken-by-the-first-task", PCase{Agents: []PAgent{exact}, Tasks: []PTask{mk(1, 128, 0), mk(1, 128, 0)}}, vh.Confirmed(runPlace))
+	exact2 := PAgent{Rack: "r1", Kind: "flp", CPU: 8, Mem: 8192, Ports: [][2]uint64{{9000, 9001}, {30000, 30001}}}
+	vh.Fixed(t, prop, "last-ports-of-the-offer-taken-by-the-second-task", PCase{Agents: []PAgent{exact2}, Tasks: []PTask{mk(1, 128, 0), mk(1, 128, 0), mk(1, 128, 0)}}, vh.Confirmed(runPlace))
 	vh.Fixed(t, prop, "cpu-sum-exceeds-offer", PCase{Agents: []PAgent{small}, Tasks: []PTask{mk(1.5, 128, 0), mk(1.5, 128, 0)}}, vh.Confirmed(runPlace))
 	vh.Fixed(t, prop, "memory-sum-exceeds-offer", PCase{Agents: []PAgent{small}, Tasks: []PTask{mk(0.5, 900, 0), mk(0.5, 900, 0)}}, vh.Confirmed(runPlace))
 }
